@@ -108,6 +108,22 @@ CHECKS = {
         design="§8 C09",
         technique="Lean 4 proof over a guard chain regenerated from source + L2 differential with crafted protobuf envelopes",
         note=TB + " cw_utils' envelope parsers are a parameter of the model (their outcome is known to the generator by construction)."),
+    "C15": dict(
+        text="Machine-checked proofs on the model of CheckGenerics / filter_wheres: a parameter is in a message type's list iff it occurs (visitor's notion) in an argument "
+             "of a handler of that kind (or a query response), each once; used/unused partition the user's parameters; a where-predicate is kept iff every parameter it "
+             "mentions is used; type, placeholder and Api alias carry the same list. Tie: generic parameter lists, where clauses, dispatch generics and Api aliases of "
+             "hundreds of real expansions (generic contracts, interfaces with associated types) vs the model and vs an independent python statement.",
+        design="§8 C15",
+        technique="Lean 4 proof (membership characterisations) + L1 differential on real expansions",
+        note=TB + " Partial for the 'can be built/encoded/dispatched with just those types' clause: compiled generic contracts are not yet in the L2 corpus. Known limitation: projections T::Assoc (D9)."),
+    "C17": dict(
+        text="Machine-checked proofs on the model of the emitters: an attribute forwarded to a kind is on the type of exactly that kind (kind word read through the table "
+             "regenerated from attr.rs, obligation: same vocabulary as sv::msg), handler-forwarded attributes are on that handler's variant in order, argument attributes are "
+             "on the corresponding field, and a field is optional on the wire iff Option or forwarded serde(default). Tie: attribute lists of every type/variant/field of real "
+             "expansions vs model and vs the designated placement.",
+        design="§8 C17",
+        technique="Lean 4 proof over a table regenerated from source + L1 differential on real expansions",
+        note=TB + " The wire effect of serde(default) is exercised on compiled contracts by the missing-field documents of C03."),
 }
 
 ALL = ["C%02d" % i for i in range(1, 21)]
@@ -129,7 +145,7 @@ def main():
         },
         "engines": [
             {"name": "lean", "path": "lean/", "serves_properties": sorted(CHECKS), "kind_free_text": "Lean 4 model + theorems + svmodel line-protocol driver"},
-            {"name": "hook", "path": "harness/hook/", "serves_properties": ["C06", "C13", "C01", "C02", "C03", "C04", "C05"], "kind_free_text": "in-process macro expansion + source translator, compiled into sylvia-derive tests via the verif-hook feature (L1)"},
+            {"name": "hook", "path": "harness/hook/", "serves_properties": ["C06", "C13", "C01", "C02", "C03", "C04", "C05", "C15", "C17"], "kind_free_text": "in-process macro expansion + source translator, compiled into sylvia-derive tests via the verif-hook feature (L1)"},
             {"name": "rt", "path": "harness/rt/", "serves_properties": ["C05", "C01", "C11", "C20"], "kind_free_text": "Rust harness calling the real runtime library (L3)"},
             {"name": "corpus", "path": "harness/corpus/ + vlib/corpus.py", "serves_properties": ["C01", "C02", "C03", "C04", "C05", "C07", "C08", "C09"], "kind_free_text": "generated contracts compiled against /repo/sylvia with echo handlers (L2)"},
         ],
